@@ -61,6 +61,8 @@ def for_property(prop: str):
     mods["aiortc.rtcrtpsender"] = Profile(snd, rewrite={"join", "containers"})
     ratep = {"int": shims.sx_int, "min": shims.sx_min, "max": shims.sx_max, "dict": sx_dict, "range": shims.sx_range}
     mods["aiortc.rate"] = Profile(ratep, rewrite={"containers"})
+    pcp = {"int": shims.sx_int, "dict": sx_dict, "set": sx_set}
+    mods["aiortc.rtcpeerconnection"] = Profile(pcp, rewrite={"containers"})
     dtls = {"set": sx_set, "dict": sx_dict, "bytes": shims.sx_bytes, "int": shims.sx_int}
     mods["aiortc.rtcdtlstransport"] = Profile(dtls, rewrite={"join", "containers"})
     return {"modules": mods, "default": None}
